@@ -192,6 +192,11 @@ def rule_method_gates(check):
                     no = pv.origins(f, hir.call_args(inner)[1])
                     ok = all(p and p[-1] == "sym" for r, p in no)
         check.expect(ok, R, R + "/optchain", hir.loc(x), "lowering starts only if csi_methods.get(prop .sym).is_some()", "optional-chain lowering is not gated by the configured method list")
+    lits = [(g2, x) for g2 in prog.user_fns for x in g2.nodes() if x.get("k") == "Struct" and (x["res"].get("path") or "").endswith("OptChainVisitor")]
+    check.floor(R, "OptChainVisitor constructions", len(lits), 1)
+    for g2, x in lits:
+        fv = [hir.lit_value(fl["e"]) for fl in x["fields"] if fl["name"] == "found"]
+        check.expect(fv == [False], R, R + "/optchain-initial/" + g2.name, hir.loc(x), "the lowering starts with found = false", "OptChainVisitor is created with found = %s: every optional chain is lowered, configured method or not" % fv)
     writers = sorted({g2.name for g2 in prog.user_fns for x in g2.nodes() if x.get("k") == "Assign" and (hir.place(x["l"]) or "").endswith(".found")})
     check.expect(writers == ["visit_mut_expr"], R, R + "/found-writers", "-", "`found` only set in the gated branch", "`found` is written in %s" % writers)
 
